@@ -51,7 +51,7 @@ def candidate_programs(seed, tier):
     try:
         from . import proggen
         rng = random.Random(seed)
-        n = 60 if tier == "quick" else 1500
+        n = 60 if tier == "quick" else 400
         for k in range(n):
             try:
                 pr = proggen.gen_program(rng, size=tier, closed=True, want_terminating=True)
@@ -295,7 +295,7 @@ def collect(b, tier, seed, race=False, max_programs=None, configs=None, timeout_
         if tier == "quick":
             configs = [(m, mon, None, 0) for m in MODES for mon in (0, 1)]
         else:
-            configs = [(m, mon, g, r) for m in MODES for mon in (0, 1) for g in (1, 2, 4, 16) for r in (0, 1)]
+            configs = [(m, mon, g, 0) for m in MODES for mon in (0, 1) for g in (1, 4, 16)]
     d.configs = configs
     tmo = timeout_ms or (250 if tier == "quick" else 400)
     jobs = [(i, t, cfg) for i, t in keep for cfg in configs]
